@@ -140,19 +140,23 @@ def _apply(ttb, op, T, S, M):
             key = _np_key(k["items"])
             exp = M.get_region(k["items"])
             for name, obj in (("dense", T), ("sparse", S)):
-                got = obj[key]
+                res = obj[key]
+                got = res
                 if isinstance(got, ttb.tensor):
                     got = got.data
                 elif isinstance(got, ttb.sptensor):
                     wf_sptensor(got, "read result")
                     got = den_sp(got)
-                obs.append((name, np.asarray(got, dtype=float), np.asarray(exp, dtype=float)))
+                obs.append((name, np.array(got, dtype=float), np.asarray(exp, dtype=float)))
+                _scribble(ttb, res)
         elif k["t"] == "subs":
             rows = np.array(k["rows"], dtype=int)
             exp = M.get_subs(rows)
             for name, obj in (("dense", T), ("sparse", S)):
-                got = np.asarray(obj[rows.copy()], dtype=float).reshape(-1)
+                res = obj[rows.copy()]
+                got = np.array(res, dtype=float).reshape(-1)
                 obs.append((name, got, np.asarray(exp, dtype=float).reshape(-1)))
+                _scribble(ttb, res)
         elif k["t"] == "lin":
             idx = k["idx"]
             flat = M.flat()
@@ -166,9 +170,28 @@ def _apply(ttb, op, T, S, M):
                 exp = flat[idx]
                 key = idx
             for name, obj in (("dense", T), ("sparse", S)):
-                got = np.asarray(obj[key], dtype=float).reshape(-1)
+                res = obj[key]
+                got = np.array(res, dtype=float).reshape(-1)
                 obs.append((name, got, np.asarray(exp, dtype=float).reshape(-1)))
+                _scribble(ttb, res)
     return obs
+
+
+def _scribble(ttb, res):
+    """What a read returns belongs to the reader: overwrite it.  The state comparison that follows every step then
+    shows whether the tensor it was read from changed with it."""
+    try:
+        if isinstance(res, ttb.tensor):
+            res.data[...] = -777.0
+        elif isinstance(res, ttb.sptensor):
+            if res.vals.size:
+                res.vals[...] = -777.0
+            if res.subs.size:
+                res.subs[...] = 0
+        elif isinstance(res, np.ndarray) and res.ndim > 0 and res.flags.writeable:
+            res[...] = -777.0
+    except (ValueError, TypeError):
+        pass
 
 
 def _opclass(op):
